@@ -15,3 +15,4 @@ import AcmedVerif.Props.C04
 #print axioms AcmedVerif.Props.C08.no_post_when_fetch_fails
 #print axioms AcmedVerif.Props.C08.nonce_fresh_old_is_false
 #print axioms AcmedVerif.Props.C08.retry_identical_but_nonce
+#print axioms AcmedVerif.Props.FlowMisc.jwk_only_where_allowed
